@@ -101,6 +101,16 @@ def xml_of(pg, sink="text", codec="utf-8", strip=False):
     return v if sink == "text" else v.decode(codec)
 
 
+def text_of(pg, sink="text", codec="utf-8"):
+    import pdfminer.converter as cv
+    import pdfminer.pdfinterp as pi
+    fp = io.StringIO() if sink == "text" else io.BytesIO()
+    dev = cv.TextConverter(pi.PDFResourceManager(), fp, codec=codec) if sink != "text" else cv.TextConverter(pi.PDFResourceManager(), fp)
+    dev.receive_layout(pg)
+    v = fp.getvalue()
+    return v if sink == "text" else v.decode(codec)
+
+
 def check_xml(ex, xml, texts, fontname, figname, strip, info):
     import re
     try:
@@ -295,10 +305,15 @@ def h4_shapes(n=3, timeout=200, part=None, **kw):
         ex.require(root.tag == "pages" and len(pages) == 1, "root is <%s> with %d children" % (root.tag, len(pages)), **info)
         r = match_structure(pages[0], exp)
         ex.require(r is None, r or "", **info)
+        try:
+            txt = text_of(pg, sink)
+        except Exception as e:
+            ex.require(False, "TextConverter raised %s: %s" % (type(e).__name__, e), **info)
+        ex.require(txt == tree_text(pg), "text output %r is not the in-order text of the tree %r" % (txt, tree_text(pg)), **info)
 
     def conc(m, info):
         return info
-    return core.run_symx("H4_shapes", fn, [cv.XMLConverter.receive_layout], {"page": "every sequence of %d items from %s" % (n, KINDS), "layout section": "absent / flat / nested groups", "sink": "text / binary utf-8"},
+    return core.run_symx("H4_shapes", fn, [cv.XMLConverter.receive_layout, cv.TextConverter.receive_layout], {"page": "every sequence of %d items from %s" % (n, KINDS), "layout section": "absent / flat / nested groups", "sink": "text / binary utf-8"},
                          timeout, concretize=conc, part=part)
 
 
@@ -376,7 +391,13 @@ def replay(harness, inp):
         if root.tag != "pages" or len(list(root)) != 1:
             return "%s: root <%s> with %d children" % (desc, root.tag, len(list(root)))
         r = match_structure(list(root)[0], exp)
-        return None if r is None else "%s: %s" % (desc, r)
+        if r is not None:
+            return "%s: %s" % (desc, r)
+        try:
+            txt = text_of(pg, inp["sink"])
+        except Exception as e:
+            return "%s: TextConverter raised %r" % (desc, e)
+        return None if txt == tree_text(pg) else "%s: the text output is %r, the in-order text of the tree is %r" % (desc, txt, tree_text(pg))
     if harness == "H1_enc":
         s = inp["s"]
         out = u.enc(s)
